@@ -292,10 +292,10 @@ func (w *World) typeFacts(v string, t types.Type) []string {
 			out = append(out, app("<=", lo, v), app("<=", v, hi))
 		}
 		if u.Info()&types.IsString != 0 {
-			out = append(out, app(">=", app("len", v), "0"), app("<=", app("len", v), "9223372036854775807"))
+			out = append(out, app(">=", app("len", v), "0"), app("<=", app("len", v), "4611686018427387904"))
 		}
 	case *types.Slice:
-		out = append(out, app("<=", "0", app("soff", v)), app("<=", "0", app("slen", v)), app("<=", app("slen", v), app("scap", v)), app("<=", app("scap", v), "9223372036854775807"),
+		out = append(out, app("<=", "0", app("soff", v)), app("<=", "0", app("slen", v)), app("<=", app("slen", v), app("scap", v)), app("<=", app("scap", v), "4611686018427387904"),
 			app("=>", app("=", app("sarr", v), "anil"), app("=", app("scap", v), "0")))
 	case *types.Struct:
 		si := w.structInfo(t)
